@@ -600,7 +600,7 @@ def check_case(case, _debug=None):
         # ---- move limit
         if it > 0:
             step = np.abs(x - X[it - 1])
-            lim = move * dx * (1 + 1e-12) + 1e-15
+            lim = move * dx * (1 + 1e-12) + 1e-14 * (1 + np.abs(x))
             if np.any(step > lim):
                 j = int(np.argmax(step - lim))
                 bad("move_limit", f"it {it}: |dx[{j}]|={step[j]!r} > move*(xmax-xmin)={move[j] * dx[j]!r} "
@@ -635,7 +635,7 @@ def check_case(case, _debug=None):
             bad("interval:outside_bounds", f"call {ci}: alfa={alfa} xmin={xmin} beta={beta} xmax={xmax}")
         if np.any(x < alfa - tolb) or np.any(x > beta + tolb):
             bad("interval:excludes_current", f"call {ci}: x={x} alfa={alfa} beta={beta}")
-        lim = move * dx * (1 + 1e-12) + 1e-15
+        lim = move * dx * (1 + 1e-12) + 1e-14 * (1 + np.abs(x))
         if np.any(x - alfa > lim) or np.any(beta - x > lim):
             bad("interval:exceeds_move", f"call {ci}: x-alfa={x - alfa}, beta-x={beta - x}, move*(xmax-xmin)={move * dx}")
         if np.any(P < 0) or np.any(Q < 0):
